@@ -4,18 +4,23 @@ CHECK = {
              'working tree (Makefile, src, include, benches) -> libcstl.a, libcstl.so. Header list = include/cstl/*.h minus '
              'the guard-less template _string.h. The list of declared functions is read from the compiler (gcc -aux-info on '
              'bare include-only TUs). Generated C99 clients (project flags -Wall -Wextra -std=c99 -pedantic '
-             '-D_POSIX_C_SOURCE=199309L): every header alone, every ordered pair, all headers in sorted/reverse/seeded-shuffle '
+             '-D_POSIX_C_SOURCE=199309L, plus -pedantic-errors so that diagnostics ISO C99 requires are errors while ordinary '
+             'warnings are only counted): every header alone, every ordered pair, all headers in sorted/reverse/seeded-shuffle '
              'order (thorough: + 200 seeded ordered triples, -O0 and -O2, both TU orders on the link line); each as one TU and '
              'as two TUs that both include the headers; every client TU stores the address of every function its headers '
              'declare themselves (extern prototypes pull the library member in, static inline bodies are instantiated) into a '
-             'volatile table and runs a small per-header use snippet (clients/use_<header>.c: init/size/insert/erase on fresh '
+             'volatile table, expands every public macro those headers define (list from the preprocessor, gcc -dD -E; '
+             'DECLARE_CSTL_* / CSTL_*_INITIALIZER / CSTL_MAX_T via clients/macros.json; an unknown public macro makes the run '
+             'inconclusive) as a file-scope static, an automatic and a static-local object BEFORE any system header is '
+             'included and queries each object, and runs a small per-header use snippet (clients/use_<header>.c: init/size/insert/erase on fresh '
              'objects); each is linked against libcstl.a and against libcstl.so and RUN (shared: also with LD_BIND_NOW=1). '
              'Plus an address-of-everything client over all headers, also under ASan+UBSan. nm cross-checks: every declared '
              'extern function defined exactly once in libcstl.a and exported by libcstl.so; no client object (bare include or '
              'generated client) defines a global symbol. A configuration counts when it was compiled, linked and every run '
              'returned 0; distinct = (client kind, header tuple, TU count, link mode, optimisation level, sanitizer).'),
     'assumptions': ['gcc 12 / GNU ld / glibc loader on x86-64 Linux are the compile-link-load pipeline; other toolchains (e.g. -fcommon defaults, macOS two-level namespaces) are not explored',
-                    'clients are compiled with the project\'s own language/warning flags (-std=c99 -pedantic -D_POSIX_C_SOURCE=199309L); other dialects (C11/gnu, C++) are not explored',
+                    'clients are compiled with the project\'s own language/warning flags (-std=c99 -pedantic -D_POSIX_C_SOURCE=199309L) plus -pedantic-errors; other dialects (C11/gnu, C++) are not explored',
+                    'public macros are expanded with the invocation templates of clients/macros.json (one or two argument choices per macro), not with arbitrary arguments',
                     'warnings in client compilations are counted, not failed',
                     'the per-header use snippets are hand-written and call only a cheap subset; behavioural correctness of the library is the business of the other checks',
                     'a failure of the project build itself (make build) is reported as inconclusive, not as a violation'],
@@ -26,8 +31,8 @@ CHECK = {
 LEVEL = {
     'text': ('Exploration over build configurations: every public header alone, every ordered pair, all headers together in '
              'several orders (thorough: plus sampled ordered triples, two optimisation levels, both link orders), each as a '
-             'one-TU and a two-TU C99 client that takes the address of every function the headers declare and calls a cheap '
-             'subset, compiled with the project\'s flags, linked against the libcstl.a and libcstl.so that the project\'s own '
+             'one-TU and a two-TU C99 client that takes the address of every function the headers declare, expands every public macro with static and automatic '
+             'storage before any system header, and calls a cheap subset, compiled with the project\'s flags, linked against the libcstl.a and libcstl.so that the project\'s own '
              'Makefile produces, loaded (also with LD_BIND_NOW=1) and run; an address-of-everything client additionally under '
              'ASan+UBSan; nm cross-checks of declared vs. defined/exported symbols. The deciding oracle is the exit status of '
              'compiler, link editor, loader and client. Held means: on the configurations built.'),
